@@ -398,11 +398,56 @@ def _kinds(edits):
     return "+".join(sorted("%s(%s)" % (e["op"], ITEM0[e["i"]][2]) for e in edits)) or "-"
 
 
+def input_class(k, row):
+    """Abstract class of a (reduced) failing triple, from the path-level shape of its three trees:
+        same-dir-rename           both sides move every file of a BASE directory to the same new directory
+        entry-into-renamed-dir    one side moves every file of a directory to a new directory, the other puts a new entry
+                                  into the old one
+        entry-into-emptied-dir    one side removes every file of a directory, the other puts a new entry into it
+        path-reuse                a path that holds one file in BASE holds a different file on a side
+        same-content-new-entries  the two sides create equal content (e.g. symlinks with one target) at different paths
+    and, when none applies, the edit kinds of the two sides."""
+    base, this, other = ({e["p"]: e for e in row["impl"][t] if e["k"] != "directory"} for t in ("base", "this", "other"))
+
+    def item(e):
+        return e["c"].split(".")[0] if e["k"] == "file" and "." in e["c"] else None
+
+    def dirs(t):
+        return {p.rsplit("/", 1)[0] for p in t if "/" in p}
+
+    def vacated(side):
+        out = {}
+        for d in dirs(base):
+            if not any(p.startswith(d + "/") for p in side):
+                items = {item(base[p]) for p in base if p.startswith(d + "/")} - {None}
+                moved = any(item(side[p]) in items and "/" in p and p.rsplit("/", 1)[0] not in dirs(base) for p in side)
+                out[d] = "renamed" if moved else "emptied"
+        return out
+
+    def new(side):
+        return {p: (e["k"], e["c"]) for p, e in side.items() if p not in base or (base[p]["k"], base[p]["c"]) != (e["k"], e["c"])}
+    f = set()
+    for side in (this, other):
+        if any(p in base and item(side[p]) and item(base[p]) and item(side[p]) != item(base[p]) for p in side):
+            f.add("path-reuse")
+    vt, vo = vacated(this), vacated(other)
+    if any(vt[d] == "renamed" and vo.get(d) == "renamed" for d in vt):
+        f.add("same-dir-rename")
+    for v, side in ((vt, other), (vo, this)):
+        for d, how in v.items():
+            if any(p.startswith(d + "/") and p not in base for p in side):
+                f.add("entry-into-%s-dir" % how)
+    nt, no = new(this), new(other)
+    if any(nt[p] == no[q] for p in nt for q in no if p != q):
+        f.add("same-content-new-entries")
+    return "+".join(sorted(f)) or "%s|%s" % (_kinds(k["dT"]), _kinds(k["dO"]))
+
+
 def _report(ctx, bad):
     """Violations.  Every failing triple is first reduced: all sub-triples (subsets of the two edit sets) are replayed
-    and judged the same way, and the failure is reported under the smallest sub-triple that still fails the same clause,
-    so that one defect has one signature whatever unrelated edits accompany it:
-        <failed clauses of the reduced triple>:<tree format>:<history shape>:<merge types failing on it>:<its edit kinds>"""
+    and judged the same way, and the failure is reported under the smallest sub-triple that still fails a law, so that
+    one defect has one signature whatever unrelated edits accompany it:
+        <laws failing on the reduced triple>:<tree format>:<history shape>:<input class of the reduced triple>"""
     import itertools
     if not bad:
         return
@@ -430,13 +475,12 @@ def _report(ctx, bad):
     groups = {}
     for row, verdict in bad:
         c = row["c"]
-        want = {f.split(".")[1] for f in verdict["failed"]}
         best = None
         for t in subsets(c["dT"]):
             for o in subsets(c["dO"]):
                 k = {"law": "sub", "fl": c["fl"], "base": c["base"], "dT": t, "dO": o}
                 f = failed.get((_key(k), row["shape"], row["mt"]), ((), None, None))
-                if want & {x.split(".")[1] for x in f[0]}:
+                if f[0]:
                     rank = (len(t) + len(o), _key(k))
                     if best is None or rank < best[0]:
                         best = (rank, k, f)
@@ -447,8 +491,8 @@ def _report(ctx, bad):
         mts = [mt for mt in MERGE_TYPES if failed.get((key, shape, mt), ((),))[0]] or sorted(groups[(key, shape)][3])
         clauses = sorted({x for mt in MERGE_TYPES for x in failed.get((key, shape, mt), ((),))[0]} or f[0])
         r, v = f[1], f[2]
-        ctx.violation("%s:%s-tree:%s-history:%s:%s|%s" % ("+".join(clauses), FMT[k["fl"]], shape, "+".join(mts),
-                                                          _kinds(k["dT"]), _kinds(k["dO"])),
+        laws = "+".join(sorted({x.split(".")[0] for x in clauses}))
+        ctx.violation("%s:%s-tree:%s-history:%s" % (laws, FMT[k["fl"]], shape, input_class(k, r)),
                       "laws %s fail for merge types %s on a %s tree (%s history): BASE %s, THIS edits %s, OTHER edits %s; "
                       "working tree %s, on disk %s, conflicts %s%s; the law demands %s (reduced from THIS %s, OTHER %s)" % (
                           clauses, mts, FMT[k["fl"]], shape, k["base"], _ops(k["dT"], True), _ops(k["dO"], True),
